@@ -52,8 +52,12 @@ def script(rng, case):
     if trig and rng.random() < 0.3:
         # a reload requested in the iteration of a trigger, or the next one
         a = rng.choice(trig)
-        sc.append({'at': a['at'] + rng.choice([0, 1]),
-                   'cmd': 'reload_workflow', 'args': {}})
+        rl = {'at': a['at'] + rng.choice([0, 0, 1]),
+              'cmd': 'reload_workflow', 'args': {}}
+        if rl['at'] == a['at'] and rng.random() < 0.5:
+            sc.insert(sc.index(a), rl)      # queued ahead of the trigger
+        else:
+            sc.append(rl)
     return sorted(sc, key=lambda a: a['at'])
 
 
